@@ -37,9 +37,9 @@ class EFLRSetsDict(defaultdict):
         """Try to register a new EFLRSet instance in the structure. Return True on success, False otherwise."""
 
         set_dict = self[eflr_set.__class__]
-        if set_dict and not any(s.n_items for s in set_dict.values()):
-            # only empty sets of this type so far (left by calls which did not manage to add an item);
-            # do not let them determine the position of the type among the other types
+        if not any(s.n_items for s in set_dict.values()):
+            # no sets of this type so far (the type may have been merely looked up), or only empty ones (left by calls
+            # which did not manage to add an item); do not let that determine the position of the type among the other types
             self[eflr_set.__class__] = self.pop(eflr_set.__class__)
         if eflr_set.set_name in set_dict:
             if not set_dict[eflr_set.set_name].n_items:
